@@ -13,6 +13,7 @@ REQUIRED = ["Interpolation.__init__", "Interpolation.set", "Interpolation._order
             "minimum_angular_separation"]
 THEOREMS = ["C12_through_points", "C12_newton_form", "C12_polynomial", "C12_derivative", "C12_refused",
             "C12_newton_diff", "C12_constructor_3", "C12_constructor_4", "C12_duplicates",
+            "C12_newton_diff_any", "C12_compute_table_any", "C12_call_any", "C12_interpolates_any",
             "C12_root_step", "C12_root_sound", "C12_root_witness", "C12_grid_b64", "C12_grid_found"]
 PROOF_TIMEOUT = {"quick": 1500, "thorough": 3000}
 EXHAUSTIVE = False
@@ -23,7 +24,10 @@ MANIFEST = {
              "__call__/derivative return a float or raise ValueError (assumption shown satisfiable on a symbolic 3-point table): "
              "for max_iter < 5000 the outcome is a float inside the ordered, clamped [xl, xh] with |interpolant| <= tol, or "
              "ValueError - nothing else (the model's OutOfFuel is impossible).  PARTIAL CORRECTNESS: that a root is returned for "
-             "every sign change is not proved.  The constructor evaluated symbolically on 3- and 4-point tables ONLY (property: "
+             "every sign change is not proved.  ANY n (1..64, symbolic stored lists, by induction over the generated loops + "
+             "Spec/Newton.v): _newton_diff = divided differences, _compute_table stores them, __call__ returns y_j at every node "
+             "and between the nodes the Horner value of the Newton form, which passes through all points and reproduces every "
+             "polynomial of degree < n exactly (uniqueness of the interpolant).  The constructor evaluated symbolically on 3- and 4-point tables ONLY (property: "
              "2-9): every order of the points and every input form give the object with sorted abscissae and the divided "
              "differences, duplicates give ValueError (n = 3, two-list form); __call__/derivative of a symbolic 3-point table "
              "(n = 3 ONLY) pass through the points, equal the Lagrange parabola and its derivative, ValueError outside; binary64 "
@@ -38,13 +42,15 @@ MANIFEST = {
 EXPLANATION = ("root(): bracket invariant of the generated loop proved by induction on its fuel for an arbitrary table (ideal reals): "
                "float in the clamped interval with |P| <= tol or ValueError, never OutOfFuel for max_iter < 5000 (partial correctness: "
                "that a root is found is only searched); constructor/_order_points/_compute_table/_newton_diff evaluated symbolically "
-               "on 3- and 4-point tables (all point orders, all input forms, duplicates); __call__/derivative on a symbolic 3-point "
+               "on 3- and 4-point tables (all point orders, all input forms, duplicates); for ANY n (1..64) _newton_diff/_compute_table/"
+               "__call__ on the stored lists compute the divided differences and the Newton form, which interpolates and reproduces "
+               "polynomials of degree < n (loop induction + Spec/Newton.v); derivative and refusals on a symbolic 3-point "
                "table equal the Lagrange parabola and its derivative; root/minmax evaluated by the Coq kernel on an explicit binary64 "
                "grid; tables of other sizes (the property says 2-9), convergence and the Coordinates helpers are covered by bit-exact "
                "correspondence and the exact-rational search only.")
 CLAUSES = {
-    "passes through every tabulated point": "proved [ideal, n = 3 ONLY (property: 2..9): C12_through_points is the |x - xi| < tol shortcut of __call__; the polynomial itself through the points follows from C12_newton_form + C12_polynomial]; n = 2..9 searched (exact equality) and bit-exact correspondence",
-    "reproduces polynomials of degree < n (relative 1e-9)": "proved [ideal, n = 3 ONLY: __call__ = Horner form of the stored table (C12_newton_form), which for divided differences is the Lagrange parabola (C12_polynomial, field); the constructor stores exactly the divided differences (C12_newton_diff n = 3, 4; C12_constructor_3/_4)]; exact real arithmetic, says nothing about the 1e-9 in binary64; n = 2..9 by correspondence + search against exact Fraction Lagrange",
+    "passes through every tabulated point": "proved [ideal, ANY n in 1..64 on the stored object (symbolic lists, abscissae pairwise >= tol apart): __call__ returns y_j at every x_j (C12_call_any; this is the |x - xi| < tol shortcut) AND the Newton polynomial it evaluates between the nodes passes through every point (C12_interpolates_any, Spec/Newton.v: Neville recursion for the Newton form, induction on n)]; n = 3 symbolic version C12_through_points; n = 2..9 searched (exact equality) + bit-exact correspondence",
+    "reproduces polynomials of degree < n (relative 1e-9)": "proved [ideal, ANY n in 1..64: _newton_diff = divided differences (C12_newton_diff_any), _compute_table stores them (C12_compute_table_any), __call__ between the nodes = Horner evaluation = Newton form NF (C12_call_any), and NF reproduces every polynomial of degree < n exactly at every x (C12_interpolates_any: a degree < n polynomial with n distinct zeros is 0)]; limits: exact real arithmetic (says nothing about the 1e-9 in binary64), x at least tol away from every node (closer than tol the node ordinate is returned), the model's recursion fuel bounds n by 64, and the path from the constructor arguments to the stored lists (set/_order_points) is proved for n = 3, 4 only; n = 2..9 by correspondence + search against exact Fraction Lagrange",
     "derivative of that polynomial": "proved [ideal, n = 3 ONLY: C12_derivative, Coquelicot is_derive]; n = 2..9 searched",
     "independent of the order of the points and of the input form": "proved [ideal, n = 3 and n = 4 ONLY, symbolic x1<x2<x3(<x4) at least tol apart: all 6 resp. 24 orders x (two lists, two tuples, interleaved scalars) and the copy constructor give the identical object: C12_constructor_3, C12_constructor_4]; n = 2..9 searched; call sequences copy/set searched (key copy-shares-state)",
     "abscissae outside the table refused with ValueError": "proved [ideal, n = 3 ONLY: C12_refused; __call__ only beyond the tolerance, within tol of an end node it returns that node's ordinate]; searched n = 2..9",
@@ -59,7 +65,7 @@ CLAUSES = {
 
 def proof_files(tier):
     return (["C12_defs.v", "C12_tac.v", "C12_nd.v", "C12_init3a.v", "C12_init3b.v", "C12_init3c.v", "C12_dup3.v",
-             "C12_init4a.v", "C12_init4b.v", "C12_init4c.v", "C12_ctor3.v", "C12_ctor4.v", "C12_ideal.v", "C12_root.v", "C12_witness.v"]
+             "C12_init4a.v", "C12_init4b.v", "C12_init4c.v", "C12_ctor3.v", "C12_ctor4.v", "C12_ideal.v", "C12_root.v", "C12_witness.v", "C12_gen.v"]
             + ["C12_grid_%d.v" % k for k in range(NGRID)] + ["C12_main.v", "C12.v"])
 
 NGRID = 8
